@@ -89,6 +89,16 @@ CHECKS.update({
                      "transition must give equal normal forms with equal hashes and equivalent loaders, dumpers and predicates (with fresh "
                      "and warm lru_cache), an edit must give unequal normal forms, normalisation must be idempotent and bare generics get "
                      "the documented implicit parameters."),
+    "C16": dict(technique="TLA+ spec Generic.tla (class tables built by Declare actions, FieldType by substitution through the hierarchy) "
+                          "model-checked by TLC; every (class table, parametrisation) built as real dataclass / attrs / pydantic / NamedTuple / "
+                          "TypedDict classes and probed field by field",
+                category="model_checking", design_ref="6/C16",
+                note="trusts: accepts() as the strict acceptance rule of the closed types of this universe; class source generation; chains of "
+                     "<= 3 classes, <= 2 parameters (+ fresh variable); chains of length 3 sampled in the quick tier",
+                text="TLC checks that every field of every used class gets a closed type and that a pass-through intermediate class does not "
+                     "change any field type, and enumerates ~46k (class table, parametrisation or bare use) cases with the expected type of "
+                     "every field; on the real code conforming data must load and round-trip, and for every field 14 leaf data decide that it "
+                     "is loaded with exactly the documented substitution (data fitting only another substitution is rejected)."),
     "C18": dict(technique="TLA+ spec Enum.tla (flag values as bit sets, Python's Flag validity rule, documented load rules of the flag providers) "
                           "model-checked by TLC; every flag class x option combination x candidate representation replayed on real enum.Flag "
                           "classes; described Enum classes x providers",
